@@ -269,15 +269,23 @@ def _sent_jobs(tier, seed):
     for (L, W) in shapes:
         for first in range(8):
             jobs.append(dict(L=L, W=W, first=first, _cost=8 ** (L * W - 1), _timeout_s=2400, _max_violations=64))
+    # slowly converging parameter sets (failure probabilities close to 0 / 1) on the smallest boards
+    if tier == "quick":
+        jobs.append(dict(L=1, W=1, first=1, probs=[0.1, 0.1, 0.001], budget=10 ** 6, _cost=500, _timeout_s=2400))
+    else:
+        for first in range(8):
+            for probs in ([0.1, 0.1, 0.001], [0.1, 0.999, 0.1]):
+                jobs.append(dict(L=1, W=1, first=first, probs=probs, budget=10 ** 6, _cost=500, _timeout_s=2400))
     return jobs
 
 
 @harness("gen.solve_sentinel", props=["C11"], jobs=_sent_jobs, sentinel=True, covers=["solved", "nosol"],
          stubs=["open -> in-memory file", "logging (tad) -> sweep counter (budget 20000 sweeps)"],
-         bounds="CONCRETE runs: every board with <= 2 tiles (thorough <= 3), all arrow/loose layouts, rewards 0/1/2, probabilities 0.1 / 0.05 / 0.1",
+         bounds="CONCRETE runs: every board with <= 2 tiles (thorough <= 3), all arrow/loose layouts, rewards 0/1/2, probabilities 0.1 / 0.05 / 0.1; "
+                "plus 1x1 boards with failure probabilities 0.001 / 0.999 (tens of thousands of sweeps; quick: one of them)",
          desc="SENTINEL (concrete runs, not a solver verdict): every generated game is solved or reported as having no solution "
               "by the real run_games, within a sweep budget")
-def gen_solve_sentinel(sp, L, W, first):
+def gen_solve_sentinel(sp, L, W, first, probs=(0.1, 0.05, 0.1), budget=20000):
     from .pipe import tad_pipe, SweepBudget
     gen, _, _ = mods()
     t = tad_pipe()
@@ -286,13 +294,13 @@ def gen_solve_sentinel(sp, L, W, first):
     moves, loose, _ = _board(sp, L, W, first, None)
     rewards = [[(i + 2 * j + 1) % 3 for j in range(W)] for i in range(L)]
     FakeFile.store, FakeFile.opened = {}, []
-    gen.write_robots("inputs/s.py", L, W, moves, rewards, loose, 0.1, 0.05, 0.1)
+    gen.write_robots("inputs/s.py", L, W, moves, rewards, loose, probs[0], probs[1], probs[2])
     d = cr.read_dict_from_file("inputs/s.py")
-    t.logging.reset(20000)
+    t.logging.reset(budget)
     try:
         out = cr.run_games(d)
     except SweepBudget:
-        sp.prove(False, "a generated game was neither solved nor declared unsolvable within 20000 sweeps (moves=%s loose=%s)" % (moves, loose))
+        sp.prove(False, "a generated game was neither solved nor declared unsolvable within %d sweeps (moves=%s loose=%s)" % (budget, moves, loose))
     sp.prove(list(out.keys()) == ["game_a", "game_a_no_prune", "game_b", "game_b_no_prune", "game_c", "game_c_no_prune"], "entries %s" % list(out))
     for k, e in out.items():
         ok = e["msg"] == "Game solved" or e["msg"] == "Game not solved" or ("no solution" in e["msg"])
